@@ -15,6 +15,8 @@ for d in sorted(glob.glob('/verif/seeded/C*-*'), key=lambda x: (x.split('/')[-1]
     first = next(iter(fv.values()), '')
     kind = first.replace('detail:', '').strip().split(':')[0][:44].replace('|', '/')
     caught = ', '.join(k for k, v in det.items() if v == 'VIOLATION') or ('not reported (outside the property as stated, see meta.json)' if m.get('verdict_note') else 'NOT CAUGHT')
+    if m.get('neutralised_by_fix'):
+        caught += ' (since then neutralised by fix ' + m['neutralised_by_fix'].split(' ')[0] + ': no longer a breaking change on HEAD)'
     rows.append(f"| {name} | {rnd} | {summ} | {caught} | {kind} |")
     metas.append((name, caught))
 table = "\n".join([BEGIN,
